@@ -281,9 +281,14 @@ class SmpteTimeCode(_HHMMSSTimeExpression):
     if frame_rate is None:
       raise ValueError("Cannot compute SMPTE time code from seconds without frame rate")
 
-    frames = seconds * float(frame_rate)
+    # use exact arithmetic whenever the offset is exact, so that an offset that falls
+    # on a frame boundary is never truncated to the preceding frame
+    if isinstance(seconds, (int, Fraction)):
+      frames = seconds * frame_rate
+    else:
+      frames = seconds * float(frame_rate)
 
-    return SmpteTimeCode.from_frames(int(frames), frame_rate)
+    return SmpteTimeCode.from_frames(floor(frames), frame_rate)
 
   def __str__(self):
     if self.is_drop_frame():
